@@ -283,6 +283,9 @@ def c11_tower(r, seed, tier, model_ok):
         return call("ㅈㅅ", [num(d - 1)])
     def prog():
         k = R.random(); d = R.randrange(1, 5)
+        if k < .12:          # a use that depends on the KIND of a result (an integer where a real came out, or the reverse, prints alike but is not alike)
+            x = num(d); c = R.randrange(6)
+            return [f"{x} ({E(5)} {E(6)} {E(7)} ㅁㄹㅎㄹ) ㅎㄴ", f"{x} ㅈㅅㅎㄴ", f"{E(7)} {E(2)} {x} ㅅㅎㄹ", f"{x} {E(6)} (ㅂ ㅂㄷ ㄱ ㅂㅎㄹ) ㅎㄷ", f"{x} ㅁㅈㅎㄴ", f"{x} {x} ㅁㄹㅎㄷ ㅈㄷㅎㄴ"][c]
         if k < .5: return num(d)
         if k < .65: return call("ㅈ", [num(d), num(d)])
         if k < .7: return call(call("ㅂ", ["ㅂ", "ㅅ", R.choice(["ㄴㄴ", "ㅁㄴ"])]), [num(d)])                    # is NaN / is infinite
@@ -812,6 +815,30 @@ def c18_cli(r, seed, tier, model_ok):
     r.slice("cli_run", n, len({p[0] + str(p[1]) for p in progs}), [progs[0][0]], dict(cnt), "cli.run in-process on generated single-expression programs x argument vectors + real processes", bad[:40])
 
 # ------------------------------------------------------------------ C02: calling values that are not functions
+def c02_function_values(r, seed, tier, model_ok):
+    """function VALUES built by ㄴㄱ (pipe), ㅁㅂ (collect) and ㅂㅂ (spread): pipes of 0-4 stages called with 0-3 arguments, the stages of every
+    callable kind (closures reading argument 0 / 1 / their argument count, arity-checked and variadic built-ins, lists, Booleans, dictionaries,
+    collected / spread functions, nested pipes): only the FIRST stage sees the call's arguments, every later stage gets exactly one - the result
+    before it; collect hands its function ONE list of all arguments, spread hands the elements of its one list argument as separate arguments.
+    Against the model (CallRules.call_pipe / pipe_spec / call_collect_list / call_spread): result and complete event trace."""
+    if not model_ok: return
+    R = random.Random(seed * 7919 + 0xC02 + 13); cases = []; shapes = collections.Counter()
+    STAGES = ["(ㄱㅇㄱ ㅎ)", "(ㄴㅇㄱ ㅎ)", "(ㄱㅇㄱ ㄴㅇㄱ ㄷㅎㄷ ㅎ)", "(ㄱㅇㄱ ㄴ ㄷㅎㄷ ㅎ)", "ㅁㄹ", "ㅁㅈ", "ㄷ", "ㄱ", "ㅈㄷ", "ㄷㅂ", "ㅂㄱ", f"({E(5)} {E(6)} {E(7)} {E(4)} ㅁㄹㅎㅁ)", "(ㅈㅈㅎㄱ)", "(ㄱㅈㅎㄱ)",
+              f"({E(0)} {E(3)} {E(1)} {E(9)} ㅅㅈㅎㅁ)", "(ㄷ ㅁㅂㅎㄴ)", "(ㅁㄹ ㅁㅂㅎㄴ)", "(ㅈㄷ ㅁㅂㅎㄴ)", "(ㄷ ㅂㅂㅎㄴ)", "((ㄱㅇㄱ ㄴㅇㄱ ㅁㄹㅎㄷ ㅎ) ㅂㅂㅎㄴ)", "(ㅁㄹ (ㄱㅇㄱ ㅈㄷㅎㄴ ㅎ) ㄴㄱㅎㄷ)", "((ㄱㅇㄱ ㅎ) ㄴㄱㅎㄴ)", "(ㄴㄱㅎㄱ)",
+              "(ㄱㅇㄱ ㄱㅇㄱ ㅁㄹㅎㄷ ㅎ)", "(ㄴ ㄱ ㄴㄴㅎㄷ ㅎ)"]
+    ARGS = [E(0), E(1), E(2), E(-1), f"({E(3)} {E(4)} ㅁㄹㅎㄷ)", "(ㅁㄹㅎㄱ)", "(ㄴ ㄱ ㄴㄴㅎㄷ)", f"({E(1)} {E(2)} {E(3)} ㅁㄹㅎㄹ)", "(ㅈㅈㅎㄱ)"]
+    for _ in range(N(tier, 1500, 20000)):
+        k = R.random(); na = R.randrange(0, 4); args = [R.choice(ARGS) for _ in range(na)]
+        if k < .7: ns = R.randrange(0, 5); f = "(" + " ".join(R.choice(STAGES) for _ in range(ns)) + (" " if ns else "") + f"ㄴㄱㅎ{E(ns)})"; sh = f"pipe:{ns}x{na}"
+        elif k < .85: f = f"({R.choice(STAGES)} ㅁㅂㅎㄴ)"; sh = f"collect:{na}"
+        else: f = f"({R.choice(STAGES)} ㅂㅂㅎㄴ)"; sh = f"spread:{na}"
+        t = " ".join(args) + (" " if args else "") + f"{f} ㅎ{E(na)}"
+        if R.random() < .2: t = f"({t}) ((ㄱ ㄱㅇㄱ ㅎㄴ) ㅎ) ㅅㄷㅎㄷ"
+        cases.append(dict(text=t)); shapes[sh.split("x")[0]] += 1
+    a = impl_run(cases); b = model_run(cases, tlimit=10); dist, bad = compare(cases, a, b)
+    r.slice("function_values_vs_model", len(cases), len({c["text"] for c in cases}), [cases[0]["text"], cases[1]["text"]], dict(outcomes=dict(dist), shapes=dict(shapes)),
+            "pipes of 0-4 stages x 0-3 arguments over 25 stage kinds, collected and spread functions: result and complete event trace vs the model", bad)
+
 def c02_callables(r, seed, tier, model_ok):
     """calling a Boolean, list, string, byte string, exception, dictionary or complex number: EVERY index in -len-3 .. len+2 (and wrong arities /
     argument kinds) against the documented selection / indexing rule computed independently in the harness; the modelled kinds also vs the model"""
